@@ -12,7 +12,7 @@ MAY_RAISE = ["ValueError", "IndexError", "KeyError", "NotImplementedError", "Typ
 def shape_spec(name, info):
     """S1 for one opcode -> dict(requires, pre_text, expected clauses, has_mark)"""
     before, after = info["before"], info["after"]
-    req, ens = ["wf_interp(interpreter)"], []
+    req, ens = ["wf_interp(interpreter)", "is_data(self.arg)"], []
     if "mark" in before:
         i = before.index("mark")
         objs_below = [f"ghost_val('b{j}')" for j in range(i)]
@@ -150,7 +150,7 @@ def frame_contracts(run):
             c.params = params
             c.loops = loops or {}
             c.logs = []
-            c.requires = []
+            c.requires = ["is_data(self.arg)"]
             eng.contracts[key] = c
             out.append(key)
             return c
@@ -205,7 +205,7 @@ def opcode_contracts(run, extra_ensures=None, props=()):
             okey = f"{cls}.run@orig"
             # the wrapped run sees the stack cut at the mark and the slice as a list
             oc = Contract(okey, params=f"self: {cls}, interpreter: fickle.Interpreter, stack_slice: list[val]",
-                          requires=["wf_interp(interpreter)", f"{STK} == {sh['pre']}", "stack_slice == ghost_seq('seg')", "NM(ghost_seq('seg'))",
+                          requires=["wf_interp(interpreter)", "is_data(self.arg)", f"{STK} == {sh['pre']}", "stack_slice == ghost_seq('seg')", "NM(ghost_seq('seg'))",
                                     "fresh_list(stack_slice, interpreter)"] +
                           [r for r in sh["requires"] if r.startswith("not is_mark(ghost_val('b")] + mreq,
                           ensures=sh["ensures"] + mens + extra, may_raise=MAY_RAISE, exact_raises=False, props=["no-frame"] + list(props),
